@@ -4,7 +4,7 @@
 pub const N_ATOMS: usize = 31;
 /// Atoms beyond the universe's alphabet, used by dense sweeps only: 31 = uniform noise of amplitude
 /// `seed`, 32 = 128 silent samples followed by such noise.
-pub const N_ATOMS_EXT: usize = 33;
+pub const N_ATOMS_EXT: usize = 34;
 
 pub const ATOM_NAMES: [&str; N_ATOMS] = [
     "silence", "dc_max", "dc_min", "dc_one", "alt_maxmin", "alt_minmax", "impulse_first",
@@ -153,6 +153,15 @@ pub fn atom(id: usize, bps: u32, n: usize, ch: usize, block: usize, seed: u64) -
             (0..n).for_each(|t| {
                 let x = r2.sym(amp);
                 v.push(if id == 32 && t < 128.min(n / 2) { 0 } else { clamp(x, bps) })
+            });
+        }
+        33 => {
+            // one 64-sample stretch alternating between the extremes inside an otherwise quiet block: the
+            // residual of every fixed predictor is largest there (it needs the largest Rice parameter
+            // the width allows, bps or bps + 1), while the block as a whole still beats verbatim
+            (0..n).for_each(|t| {
+                let loud = (64..128).contains(&t);
+                v.push(if loud { (if t % 2 == 0 { mx } else { mn }) as i32 } else { ((t + block) % 3) as i32 - 1 })
             });
         }
         _ => panic!("unknown atom {id}"),
